@@ -23,6 +23,18 @@ def BV(name, dom):
     return ('bvar', next(_fresh), name, dom)
 
 
+_bv_memo = {}
+
+
+def BVK(key, name, dom):
+    """a fresh binder that is the SAME binder whenever the same construct is normalised again (rewriting is not
+    memoised per occurrence, and rules compare sub-terms with ==)"""
+    k = (key, name, dom)
+    if k not in _bv_memo:
+        _bv_memo[k] = BV(name, dom)
+    return _bv_memo[k]
+
+
 def RANGE(n):
     return CALL(S('range'), [n])
 
@@ -38,6 +50,15 @@ def replace(t, old, new):
     if not isinstance(t, tuple):
         return t
     return tuple(replace(x, old, new) if isinstance(x, tuple) else x for x in t)
+
+
+def replace_bvar(t, b, new):
+    """substitute the bound variable with b's id (whatever domain its occurrences carry) by `new`"""
+    if not isinstance(t, tuple):
+        return t
+    if t and t[0] == 'bvar' and t[1] == b[1]:
+        return new
+    return tuple(replace_bvar(x, b, new) if isinstance(x, tuple) else x for x in t)
 
 
 def array_len(t):
@@ -72,6 +93,46 @@ def rewrite(t, f):
 
 
 _canon_memo = {}
+
+
+def dget_in_chain(t):
+    """inside an aggregate over i in range(N):  D.get(i, d) / (D[i] if i in D else d)  with D a dict comprehension  ->
+    element i of the scatter of D's values over array(N, ., d)"""
+    chain = t[1]
+    for b, g in chain:
+        if not is_range1(b[3]):
+            continue
+        n = b[3][2][0]
+        hits = []
+        for x in walk(t):
+            if x[0] == 'call' and x[1][0] == 'attr' and x[1][2] == 'get' and x[1][1][0] == 'dictcomp' and len(x[2]) in (1, 2) and x[2][0] == b:
+                hits.append(x)
+        if not hits:
+            continue
+        out = t
+        for x in hits:
+            dc = x[1][1]
+            dflt = x[2][1] if len(x[2]) == 2 else NONE
+            j = BVK(('dget', x), 'i', RANGE(n))
+            arr = ('accum', ('array', n, j, dflt), (('setidx', dc[2], dc[3], tuple(dc[1])),), 'dict', 0)
+            out = replace(out, x, I(arr, b))
+        if out != t:
+            return out
+    return None
+
+
+def dict_scatter(t):
+    """array(N, i, D.get(i, default)) with D = {key(b): val(b) for chain}  ->  scatter of val at key over array(N, i, default)"""
+    if t[0] != 'array':
+        return None
+    n, i, v = t[1], t[2], t[3]
+    if v[0] == 'call' and v[1][0] == 'attr' and v[1][2] == 'get' and v[1][1][0] == 'dictcomp' and len(v[2]) == 2 and v[2][0] == i:
+        dc = v[1][1]
+        return ('accum', ('array', n, i, v[2][1]), (('setidx', dc[2], dc[3], tuple(dc[1])),), 'dict', 0)
+    if v[0] == 'ite' and v[1][0] == 'cmp' and v[1][1] == 'In' and v[1][2] == i and v[1][3][0] == 'dictcomp' and v[2] == I(v[1][3], i):
+        dc = v[1][3]                       # D[i] if i in D else default
+        return ('accum', ('array', n, i, v[3]), (('setidx', dc[2], dc[3], tuple(dc[1])),), 'dict', 0)
+    return None
 
 
 def canon(t):
@@ -117,9 +178,22 @@ def norm_chain(chain, *vals):
     vals = list(vals)
     for k, (b, g) in enumerate(chain):
         dom = canon(b[3])
+        while dom[0] == 'call' and dom[1] in (S('list'), S('tuple'), S('iter'), S('sorted')) and len(dom[2]) == 1 and not dom[3] and (dom[1] != S('sorted') or True) and dom[2][0][0] in ('call', 'comp', 'array', 'accum', 'attr', 'sym', 'bvar'):
+            if dom[1] == S('sorted'):
+                break
+            dom = dom[2][0]
+        if dom[0] == 'call' and show(dom[1]).endswith('chain.from_iterable') and len(dom[2]) == 1:
+            # for b in chain.from_iterable(X)  ==  for r in X for b in r
+            r = BVK(('cfi', b[1]), 'r', dom[2][0])
+            nb = ('bvar', b[1], b[2], r)
+            def rw(x, b=b, nb=nb):
+                return replace_bvar(x, b, nb)
+            rest = [(rw_b(bb, rw), rw(gg)) for bb, gg in chain[k + 1:]]
+            vals = [rw(v) for v in vals]
+            return tuple(out) + ((r, TRUE), (nb, rw(g))) + tuple(rest), vals
         n = array_len(dom) if dom[0] in ('array', 'accum') else None
         if n is not None:
-            i = BV('i', RANGE(n))
+            i = BVK(('arr', b[1]), 'i', RANGE(n))
             el = elem(dom, i)
             def rw(x):
                 x = replace(x, ('indexof', b), i)
@@ -203,8 +277,36 @@ def string_step(t):
     return None if r == t else r
 
 
+NEG_CMP = {'Eq': 'NotEq', 'NotEq': 'Eq', 'Is': 'IsNot', 'IsNot': 'Is', 'In': 'NotIn', 'NotIn': 'In'}
+
+
+def is_str_valued(t):
+    if t[0] == 'const':
+        return isinstance(t[1], str)
+    if t[0] in ('fstr', 'sjoin', 'srep'):
+        return True
+    if t[0] == 'idx':
+        return is_str_valued(t[1])
+    if t[0] == 'array':
+        return is_str_valued(t[3])
+    if t[0] == 'accum':
+        return is_str_valued(t[1]) and all(is_str_valued(e[2]) for e in t[2])
+    if t[0] == 'ite':
+        return is_str_valued(t[2]) and is_str_valued(t[3])
+    return False
+
+
 def step(t):
+    if t[0] == 'not' and t[1][0] == 'cmp' and t[1][1] in NEG_CMP:
+        return ('cmp', NEG_CMP[t[1][1]], t[1][2], t[1][3])
+    if t[0] == 'fstr' and len(t[1]) == 1 and t[1][0][0] in ('idx', 'ite') and is_str_valued(t[1][0]):
+        return t[1][0]                      # str() of a string
+    if t[0] == 'array' and t[3][0] == 'idx' and t[3][2] == t[2] and array_len(t[3][1]) == t[1] and not contains(t[3][1], lambda x: x == t[2]):
+        return t[3][1]                      # [X[i] for i in range(len(X))] == X
     r = string_step(t)
+    if r is not None:
+        return r
+    r = dict_scatter(t)
     if r is not None:
         return r
     k = t[0]
@@ -234,6 +336,18 @@ def step(t):
         nc = norm_chain(t[1], t[2])
         if nc is not None:
             return ('sum', nc[0], nc[1][0])
+        return dget_in_chain(t)
+    if k == 'srep':
+        nc = norm_chain(t[1], t[2])
+        if nc is not None:
+            return ('srep', nc[0], nc[1][0], t[3])
+        r = dget_in_chain(t)
+        if r is not None:
+            return r
+        ch, inner, sep = t[1], t[2], t[3]
+        if sep != C(None) and len(ch) == 1 and ch[0][1] == TRUE and is_range1(ch[0][0][3]) and ((inner[0] == 'fstr' and len(inner[1]) == 1) or (inner[0] != 'fstr' and is_str_valued(inner))):
+            # sep.join(str(v(i)) for i in range(N))  ==  sep.join(array)
+            return ('sjoin', sep, ('array', ch[0][0][3][2][0], ch[0][0], inner))
         return None
     if k == 'max0':
         nc = norm_chain(t[1], t[2])
@@ -273,7 +387,7 @@ def step(t):
             if x[0] == 'comp':
                 return ('sum', x[1], x[2])
             if x[0] in ('array', 'accum'):
-                b = BV('e', x)
+                b = BVK('sum', 'e', x)
                 return ('sum', ((b, TRUE),), b)
         if f == S('max') and len(args) == 1:
             x = args[0]
@@ -288,7 +402,7 @@ def step(t):
                 if x[0] == 'comp':
                     return ('max0', x[1], x[2])
                 if x[0] in ('array', 'accum'):
-                    b = BV('e', x)
+                    b = BVK('max', 'e', x)
                     return ('max0', ((b, TRUE),), b)
         return None
     if k == 'accum':
@@ -330,7 +444,7 @@ def step(t):
         if cut == len(entries):
             return None
         base = pre if cut == 0 else ('accum', pre, tuple(entries[:cut])) + tuple(t[3:])
-        i = BV('i', RANGE(n))
+        i = BVK(('pw', t), 'i', RANGE(n))
         cur = elem(base, i)
         for op, idx, val, ch in entries[cut:]:
             b, g = ch[0]
@@ -421,10 +535,11 @@ def _eq(a, b, env):
         e = _eq(a[1], b[1], env)
         if e is None or len(a[2]) != len(b[2]):
             return None
+        outer = e
         for x, y in zip(a[2], b[2]):
             if x[0] != y[0]:
                 return None
-            e = _eq_chain(x[3], y[3], e)
+            e = _eq_chain(x[3], y[3], outer)
             if e is None:
                 return None
             e = _eq(x[1], y[1], e)
@@ -433,12 +548,18 @@ def _eq(a, b, env):
             e = _eq(x[2], y[2], e)
             if e is None:
                 return None
-        return e
-    if k in ('sum', 'max0', 'comp'):
+        return outer
+    if k in ('sum', 'max0', 'comp', 'srep', 'dictcomp'):
+        # binders are local to the aggregate: bindings made inside do not leak (the same reference binder may serve
+        # several aggregates while the candidate has fresh ones in each)
         e = _eq_chain(a[1], b[1], env)
         if e is None:
             return None
-        return _eq(a[2], b[2], e)
+        for x, y in zip(a[2:], b[2:]):
+            e = _eq(x, y, e)
+            if e is None:
+                return None
+        return env
     if k == 'array':
         e = _eq(a[1], b[1], env)
         if e is None:
@@ -446,7 +567,7 @@ def _eq(a, b, env):
         e = _eq(a[2], b[2], e)
         if e is None:
             return None
-        return _eq(a[3], b[3], e)
+        return env if _eq(a[3], b[3], e) is not None else None
     if (k == 'bin' and a[1] == b[1] and a[1] in COMMUT_BIN) or (k == 'cmp' and a[1] == b[1] and a[1] in SYM_CMP):
         for x, y in (((a[2], a[3]), (b[2], b[3])), ((a[2], a[3]), (b[3], b[2]))):
             e = _eq(x[0], y[0], env)
